@@ -256,6 +256,13 @@ def sparse_phase(run, stats):
         if len(hull) < 3:
             continue      # collinear
         zs = [round(run.rng.uniform(-5, 25), 3) for _ in pts]
+        plane = None
+        if it % 4 == 2:
+            # heights on a plane z = p x + q y + r: every triangulation must reproduce the plane inside the hull
+            # (C19_sparse_affine), so the oracle needs no triangulation of its own here
+            plane = (run.rng.choice([0.5, -0.25, 1.0, 0.125, 0.0]), run.rng.choice([0.5, -0.25, -1.0, 0.375]), run.rng.choice([0.0, 3.5, -2.0]))
+            zs = [plane[0] * p[0] + plane[1] * p[1] + plane[2] for p in pts]
+            stats["affine_point_sets"] = stats.get("affine_point_sets", 0) + 1
         data = np.array([[p[0], p[1], z] for p, z in zip(pts, zs)])
         via = "array"
         if it % 2 == 1:
@@ -304,6 +311,10 @@ def sparse_phase(run, stats):
             elif side > 1e-7:
                 if not (scale * lo - 1e-9 * scale * max(1, abs(lo)) <= got <= scale * hi + 1e-9 * scale * max(1, abs(hi))):
                     bad = "get_depth_at%r = %r inside the hull, stored heights x scale span [%r, %r]" % (q, got, scale * lo, scale * hi)
+                if plane is not None and not bad:
+                    want = scale * (plane[0] * q[0] + plane[1] * q[1] + plane[2])
+                    if abs(got - want) > 1e-8 * max(1.0, abs(want), scale * max(abs(lo), abs(hi))):
+                        bad = "get_depth_at%r = %r inside the hull of data on the plane z = %r x + %r y + %r (scale %r), which is %r there" % ((q,) + plane + (scale, want))
             elif side < -1e-7:
                 if got != 0.0:
                     bad = "get_depth_at%r = %r outside the convex hull of the data" % (q, got)
